@@ -38,10 +38,7 @@ pub fn crypt_stream(driver: &Driver, thorough: bool) -> Stream {
     for (i, (desc, c)) in crypt_cases(thorough).into_iter().enumerate() {
         // revision 6 runs Algorithm 2.B with the Lean-native AES and SHA-2 (slow): a share of the cases
         if c.fields.r == 6 && !thorough && i % 16 != 0 { continue; }
-        // A key length of 2^31 bits makes the code (and the model, which mirrors `vec![0; key_size.max(16)]` with a
-        // list) build a 268 MB key: those stay with the walker. Lengths whose conversion overflows are cheap again.
-        let huge = |bits: i64| bits > 70_000;
-        if c.fields.bits.map(huge).unwrap_or(false) || c.fields.cf.iter().any(|cf| cf.2.map(|n| n > 9_000 && n < 536870912).unwrap_or(false)) { continue; }
+        // (key lengths above 256 bits are refused before anything is allocated: every length can go to the model)
         let pw: &[u8] = if i % 5 == 4 { b"owner" } else if i % 5 == 3 { b"wrong" } else { b"" };
         let mut rec = Rec::new();
         if let Some(p) = saslprep_known(pw) { rec.prep(pw, p.as_deref()); }
@@ -143,7 +140,7 @@ pub fn keysched_stream(driver: &Driver, thorough: bool) -> Stream {
         let f = &c.fields;
         if !(f.v == 1 || f.v == 2) || !(2..=4).contains(&f.r) { continue; }
         let bits = if f.v == 1 { 40 } else { f.bits.unwrap_or(40) };
-        if !(0..=70_000).contains(&bits) || (f.v == 2 && bits % 8 != 0) { continue; }
+        if !(0..=2147483647).contains(&bits) || (f.v == 2 && bits % 8 != 0) { continue; }
         // (entries the typed layer refuses never reach from_password)
         let u32r = |x: i64| (0..=2147483647).contains(&x);
         if !f.bits.map(u32r).unwrap_or(true) || !(-2147483648..=2147483647).contains(&f.p) || !f.cf.iter().all(|cf| cf.2.map(u32r).unwrap_or(true)) { continue; }
